@@ -104,8 +104,8 @@ fn cpu_ms() -> u64 {
 }
 
 /// wall-clock backstop for processing that waits instead of computing (the CPU budget below catches loops); generous,
-/// because the check runs on machines with load averages of 100 where a 4 s case takes a minute
-const WALL_LIMIT_S: u64 = 200;
+/// because the check runs on machines with load averages of 100-180 where a 4 s case takes minutes (round 5: 537 s)
+const WALL_LIMIT_S: u64 = 3000;
 pub const CPU_BUDGET_BASE_MS: u64 = 10000;
 pub const CPU_BUDGET_BYTES_PER_MS: u64 = 2;
 
